@@ -199,3 +199,21 @@ claim(
     'short of a loop-invariant proof decides it.',
     'sentinel-consistency rule over mypy types + memo-transparency rules on the path walker + string provenance',
 )
+
+claim(
+    'C17',
+    'Decided: (R1) the partition laws hold by construction of the definitions: :enabled is one compound over the '
+    'same control list as :disabled[disabled] ending in :not(:disabled) and every inherited-disabledness alternative '
+    'selects a control of that list; :required/:optional are Y[required] / Y:not([required]) over input, textarea, '
+    'select; :read-only is html|*:not(:read-write); :in-range/:out-of-range are one selector with complementary flags; '
+    ':link and :any-link share one definition; :checked is the first alternative of :default; the flagged definitions '
+    'keep the specially handled alternative last; all are compiled HTML-only; (R2) every tree accessor in '
+    'match_default, match_indeterminate (incl. its nested form search) and match_dir passes no_iframe=True, '
+    'match_lang/match_contains pass self.is_html, the relation walks pass self.iframe_restrict, and none of the state '
+    'matchers anchors on self.root/self.scope/self.tag; (R3) the memo tables are lists scanned by identity; (R4) the '
+    'decision table of match_range over all orders/None-ness of (min, max, value) x type x query; (R5) on a finite '
+    'universe of abstract form trees the definitions agree with predicates transcribed from the HTML Standard. '
+    'Not decided: each pseudo-class on all documents (form owner attribute, radio groups, bidi resolution).',
+    '',
+    'definition-agreement rules over the selector constants + effect rules + finite-domain decision table',
+)
